@@ -272,10 +272,16 @@ func c19diff(c *Ctx) {
 				one(fmt.Sprintf("Next(%d)", n), func(b bufAPI) (string, error) { p := b.Next(n); return fmt.Sprintf("%d %x", len(p), clipB(p, 64)), nil })
 			case 10:
 				d := gen.Pick(r, []byte{'\n', 'a', 0, 0xff, ' '})
-				one(fmt.Sprintf("ReadBytes(%#x)", d), func(b bufAPI) (string, error) { p, err := b.ReadBytes(d); return fmt.Sprintf("%d %x", len(p), clipB(p, 64)), err })
+				one(fmt.Sprintf("ReadBytes(%#x)", d), func(b bufAPI) (string, error) {
+					p, err := b.ReadBytes(d)
+					return fmt.Sprintf("%d %x", len(p), clipB(p, 64)), err
+				})
 			case 11:
 				d := gen.Pick(r, []byte{'\n', 'a', 0, 0xff, ' '})
-				one(fmt.Sprintf("ReadString(%#x)", d), func(b bufAPI) (string, error) { s, err := b.ReadString(d); return fmt.Sprintf("%d %x", len(s), clipB([]byte(s), 64)), err })
+				one(fmt.Sprintf("ReadString(%#x)", d), func(b bufAPI) (string, error) {
+					s, err := b.ReadString(d)
+					return fmt.Sprintf("%d %x", len(s), clipB([]byte(s), 64)), err
+				})
 			case 12:
 				var steps []int
 				for i := r.Intn(5); i >= 0; i-- {
@@ -315,7 +321,10 @@ func c19diff(c *Ctx) {
 			case 18:
 				one("Bytes()", func(b bufAPI) (string, error) { p := b.Bytes(); return fmt.Sprintf("%d %x", len(p), clipB(p, 64)), nil })
 			case 19:
-				one("String()", func(b bufAPI) (string, error) { s := b.String(); return fmt.Sprintf("%d %x", len(s), clipB([]byte(s), 64)), nil })
+				one("String()", func(b bufAPI) (string, error) {
+					s := b.String()
+					return fmt.Sprintf("%d %x", len(s), clipB([]byte(s), 64)), nil
+				})
 			default:
 				// a small write keeps the buffers from staying empty
 				d := []byte("xy\nz")
